@@ -792,3 +792,16 @@ VARIANTS["C10"] += [
       "        super().__init__(\n            elapsed_time_attr=state[\"elapsed_time_attr\"],",
       "        et_attr = state[\"elapsed_time_attr\"]\n        super().__init__(\n            elapsed_time_attr=et_attr,"),
 ]
+
+_SCB = "syne_tune/backend/simulator_backend/simulator_callback.py"
+VARIANTS["C12"] += [
+    B("stopping criterion rewritten only for FIFO-type schedulers", _SCB,
+      "        self._time_keeper.start_of_time()\n        self._tuner_sleep_time = backend.tuner_sleep_time\n        # Modify ``tuner.stop_criterion`` in case it depends on wallclock time\n        self._modify_stop_criterion(tuner)\n",
+      "        self._time_keeper.start_of_time()\n        self._tuner_sleep_time = backend.tuner_sleep_time\n        if isinstance(scheduler, FIFOScheduler):\n            self._modify_stop_criterion(tuner)\n"),
+    B("scheduler gets a time keeper of its own", _SCB,
+      "            scheduler.set_time_keeper(self._time_keeper)",
+      "            scheduler.set_time_keeper(SimulatedTimeKeeper())"),
+    E("rewrite before the clock is started", _SCB,
+      "        self._time_keeper.start_of_time()\n        self._tuner_sleep_time = backend.tuner_sleep_time\n        # Modify ``tuner.stop_criterion`` in case it depends on wallclock time\n        self._modify_stop_criterion(tuner)\n",
+      "        self._modify_stop_criterion(tuner)\n        self._time_keeper.start_of_time()\n        self._tuner_sleep_time = backend.tuner_sleep_time\n"),
+]
